@@ -20,6 +20,7 @@ package main
 //                written text is parsed again.  "ok <n>" | "err" | "PANIC:..."
 
 import (
+	"bufio"
 	"bytes"
 	"fmt"
 	"io"
@@ -353,6 +354,31 @@ func init() {
 	// detected (fatal "stack overflow") in a fraction of a second instead of several seconds.
 	if v, err := strconv.Atoi(os.Getenv("VERIF_MAXSTACK_MB")); err == nil && v > 0 {
 		debug.SetMaxStack(v << 20)
+	}
+	// "harness c01run": the line protocol of "run" with the output flushed after every case, so that the
+	// caller knows exactly which case a dying or stalling child was working on.
+	specials["c01run"] = func(args []string) int {
+		in := bufio.NewReaderSize(os.Stdin, 1<<20)
+		out := bufio.NewWriterSize(os.Stdout, 1<<16)
+		for {
+			line, err := in.ReadString('\n')
+			if line == "" && err != nil {
+				break
+			}
+			toks := strings.Fields(strings.TrimRight(line, "\n"))
+			if len(toks) == 0 {
+				fmt.Fprintln(out, "")
+			} else if h, ok := handlers[toks[0]]; ok {
+				fmt.Fprintln(out, safe(h, toks[1:]))
+			} else {
+				fmt.Fprintln(out, "unknown-cmd")
+			}
+			out.Flush()
+			if err != nil {
+				break
+			}
+		}
+		return 0
 	}
 	handlers["hist"] = c01Hist
 	handlers["stmt"] = c01Stmt
